@@ -29,7 +29,7 @@ P cancel <w> | P writefail <w> | P close <c> | P leave <w> | P alloc <next> <use
     -> see handleP
 
 C reset <check 0|1> <client>*                    client = id:name:spell:qtype:scope:route(f|r)[:class[:nq]]   (nq = number of questions, default 1)
-C arrive <i> | C join <i> | C refuse <i> | C wake <i> | C malformed <i> | C evict <name> <qtype> <scope>
+C arrive <i> | C join <i> | C refuse <i> | C wake <i> | C malformed <i> | C gone <i> (client i's request context is cancelled) | C evict <name> <qtype> <scope>
 C respell <name> <qtype> <scope> <spell>         the packed entry is re-packed with another spelling of its name
 C refresh <i> <scheme> <rr 0|1> <ev 0|1> <att>*  background refresh (optimistic cache) for client i's question
 C resolve <f> <udp|tcp|tcpudp> <rr 0|1> <att>*   att = fail | m:<id>:<q>:<resp>:<rcode>:<tc>:<ans>[:<ttl0>], q = - | name.spell.qtype[.class]
@@ -332,6 +332,11 @@ def handleC (d : DSt) : List String → DSt × String
   | ["wake", i] =>
     match i.toNat? with
     | some i => let c := Ctl.step d.ccfg d.c (.wake i); ({ d with c := c }, cOut d.c c i)
+    | none => (d, "bad-op")
+  | ["gone", i] =>
+    -- client i's own request context ends; nothing but the ghost list changes
+    match i.toNat? with
+    | some i => let c := Ctl.step d.ccfg d.c (.gone i); ({ d with c := c }, "others-finished=- " ++ cOut d.c c i)
     | none => (d, "bad-op")
   | ["malformed", i] =>
     -- the harness reports what became of a query without exactly one question that the real code did NOT refuse
